@@ -161,6 +161,11 @@ func c15Polarity(c *Ctx) {
 				}
 			}
 		}
+		for _, rl := range rangeLoops(f) {
+			if _, isL := isLoadOf(rl.Over, "DialogBasedBackend.backends"); isL {
+				c.check(len(rl.earlyExits()) == 0, rule, "cleanExpiredDialog/visits-every-entry", w.ipos(rl.If), "the sweep walks the whole table", "the sweep can stop before it has visited every entry (a cap or early exit): expired pins survive further sweep periods and the table can grow without bound")
+			}
+		}
 		if cond == nil || len(marks) == 0 {
 			c.bad(rule, "cleanExpiredDialog/shape", w.pos(f.Pos()), "the sweep does not walk dbb.backends marking/deleting entries")
 		} else {
@@ -378,9 +383,29 @@ func c15Termination(c *Ctx) {
 			return false, "no GetDialog"
 		}
 		nonEmpty := func(a Atom) bool { return a.Kind == "eqstr" && a.Str == "" && isResultOf(a.X, gd, 0) }
-		keep := w.under(assumeAtom(nonEmpty, false))
-		mn, _, _ := countSites(at(gd), keep, isInstr(rm))
-		return mn == 1, "with a dialog identifier the BYE arm does not always remove the pin"
+		// every BYE response from a known backend with a dialog identifier dissolves the pin, whatever its status:
+		// all lookups succeed, the message is a response, the method is BYE, the dialog id is not empty
+		as := []assumption{assumeAtom(nonEmpty, false), func(a Atom, _ *ssa.If) (bool, bool) {
+			if ok, keyReq := w.requestAtom(a); ok {
+				return true, !keyReq
+			}
+			return false, false
+		}}
+		for _, cs := range w.callsIn(f) {
+			if errIndex(cs.In) >= 0 && w.isMain(cs.In.Common().StaticCallee()) {
+				as = append(as, assumeAtom(errNil(cs.In), true))
+			}
+		}
+		var gm ssa.CallInstruction
+		for _, cs := range w.callsIn(f, "(*Message).GetMethod") {
+			gm = cs.In
+		}
+		if gm != nil {
+			as = append(as, assumeAtom(func(a Atom) bool { return a.Kind == "eqstr" && a.Str == "BYE" && isResultOf(a.X, gm, 0) }, true))
+			as = append(as, assumeAtom(func(a Atom) bool { return a.Kind == "eqstr" && a.Str != "BYE" && isResultOf(a.X, gm, 0) }, false))
+		}
+		mn, mx, _ := countSites(entryPt(f), w.under(as...), isInstr(rm))
+		return mn == 1 && mx == 1, fmt.Sprintf("for a BYE response from a backend with a dialog identifier the removal executes min=%d max=%d times: an extra condition (e.g. on the status code) keeps the pin of a terminated dialog", mn, mx)
 	})
 	check("(*Proxy).findBackendByDialog", 1, "NOTIFY", func(f *ssa.Function, rm ssa.CallInstruction) (bool, string) {
 		var hv ssa.CallInstruction
